@@ -86,6 +86,18 @@ theorem awTake_take {w w' : World} {c : TCtl} {f : Nat} (hs : c.stage = 1)
   rw [awTake_stage1 w c f hs] at h
   ho_auto h
 
+/-- `dropwaker` stage 1: the slot is emptied, the waker taken — the one of the `block_on` in progress at THIS stage —
+is handed to stage 2 (`wakerDrop c.taken`), whatever `block_on` call is current by then -/
+theorem dropWaker_take {w w' : World} {c : TCtl} {f : Nat} (hs : c.stage = 1)
+    (h : w.runOp c (.dropWaker f) = .ok w') (hf : f < w.futs.length) (ht : w.tid < w.ctl.length) :
+    (∃ w1, w.postAcquire (w.futs.getD f {}).slotMutex = .ok (w1, true)) ∧
+    (w'.futs.getD f {}).slot = false ∧
+    ((w.futs.getD f {}).slot = true →
+      (w'.ctlOf w.tid).taken = (w.futs.getD f {}).arc ∧ (w'.ctlOf w.tid).stage = 2) ∧
+    ((w.futs.getD f {}).slot = false → (w'.ctlOf w.tid).stage = 0 ∧ (w'.ctlOf w.tid).pc = (w.ctlOf w.tid).pc + 1) := by
+  rw [dropWaker_stage1 w c f hs] at h
+  ho_auto h
+
 /-- `block_on` stage 44 (mode 1, return): the registration is taken back and handed to stage 46 -/
 theorem blockOn_takeBack {w w' : World} {c : TCtl} {f mode : Nat} (hs : c.stage = 44)
     (h : w.blockOnStage c f mode = .ok w') (hf : f < w.futs.length) (ht : w.tid < w.ctl.length) :
